@@ -353,3 +353,57 @@ Section Dedisperse.
   Lemma dedisperse_len_spec : dedisperse_len N start nsamps 0 md = nsamps - md.
   Proof. reflexivity. Qed.
 End Dedisperse.
+
+(** * the packed depths: by Proofs.C01_packed.run_plan_packed_as_bytes every theorem above transfers to the byte-wide set that
+      holds the unpacked samples *)
+Require Import SPP.Model.Bits SPP.Model.PlanPacked SPP.Proofs.C01_packed.
+
+Lemma nth_map_in {A B} (f : A -> B) l i d d' : (i < length l)%nat -> nth i (map f l) d = f (nth i l d').
+Proof. intros. rewrite nth_indep with (d' := f d') by (rewrite map_length; lia). apply map_nth. Qed.
+
+Lemma X_unpacked fs nbits big k : In nbits [1; 2; 4] -> 0 <= k < len (flat fs) * bf nbits ->
+  X (unpacked_set fs nbits big) k = packed_sample fs nbits big k.
+Proof. intros Hnb Hk. destruct (SPP.Proofs.C03_bits.bf_pos nbits Hnb) as [Hb _].
+  unfold X, unpacked_set, flat at 1. cbn [map dat concat]. rewrite app_nil_r. unfold of_list. replace (k <? 0) with false by lia.
+  rewrite unpackL_index by lia. unfold packed_sample.
+  rewrite (nth_map_in _ _ _ 0 0) by (rewrite zrange_length; lia).
+  unfold zrange. rewrite (nth_map_in Z.of_nat _ _ 0 0%nat) by (rewrite seq_length; lia).
+  rewrite seq_nth by lia. cbn [Nat.add]. rewrite Z2Nat.id by lia. reflexivity. Qed.
+
+Theorem collapse_spec_packed fs nch nbits big N gulp start nsamps junk :
+  In nbits [1; 2; 4] -> (nch * nbits) mod 8 = 0 -> 1 <= nch ->
+  1 <= nfiles fs -> total fs = N * samp_bytes nch nbits -> Forall is_byte (flat fs) ->
+  0 <= start -> 1 <= nsamps -> start + nsamps <= N -> 1 <= gulp ->
+  exists out, collapse_pipe_packed fs nch nbits big gulp start nsamps junk = Some out /\
+    forall t, 0 <= t < nsamps -> out t = sum_n (Z.to_nat nch) (fun c => packed_sample fs nbits big ((start + t) * nch + c)).
+Proof. intros Hnb Hdiv Hc Hf Ht Hbytes Hs0 Hn Hr Hg.
+  destruct (run_plan_packed_as_bytes fs nch nbits big N gulp start nsamps 0 junk Hnb Hdiv Hc Hf Ht Hbytes Hs0 Hn Hr Hg ltac:(lia)) as [E [Hf' Ht']].
+  unfold collapse_pipe_packed, collapse_skipback. rewrite E.
+  destruct (collapse_spec (unpacked_set fs nbits big) nch N gulp start nsamps Hf' Hc Ht' Hs0 Hn Hr Hg) as [out [Eo So]].
+  unfold collapse_pipe, collapse_skipback in Eo. exists out. split; [exact Eo|].
+  intros t Htr. rewrite So by assumption. unfold chansum. apply sum_n_ext. intros c Hcx.
+  destruct (SPP.Proofs.C03_bits.bf_pos nbits Hnb) as [Hb Hb8].
+  assert (Hnch : nch * nbits = 8 * samp_bytes nch nbits) by (unfold samp_bytes; apply Z.div_exact; lia).
+  assert (Hnb0 : 0 < nbits) by (cbn [In] in Hnb; lia).
+  assert (Hn2 : nch = samp_bytes nch nbits * bf nbits) by nia.
+  apply X_unpacked; [assumption|]. rewrite len_flat, Ht. set (sbs := samp_bytes nch nbits) in *. clearbody sbs. subst nch. nia. Qed.
+
+Theorem dedisperse_spec_packed fs nch nbits big N gulp start nsamps md delays junk :
+  In nbits [1; 2; 4] -> (nch * nbits) mod 8 = 0 -> 1 <= nch ->
+  1 <= nfiles fs -> total fs = N * samp_bytes nch nbits -> Forall is_byte (flat fs) ->
+  0 <= start -> 1 <= nsamps -> start + nsamps <= N -> 1 <= gulp ->
+  0 <= md < nsamps -> (forall c, 0 <= c < nch -> 0 <= delays c <= md) ->
+  exists out, dedisperse_pipe_packed fs nch nbits big gulp start nsamps md delays junk = Some out /\
+    forall t, 0 <= t < nsamps - md -> out t = sum_n (Z.to_nat nch) (fun c => packed_sample fs nbits big ((start + t + delays c) * nch + c)).
+Proof. intros Hnb Hdiv Hc Hf Ht Hbytes Hs0 Hn Hr Hg Hmd Hd.
+  assert (Hgp : 1 <= dedisperse_gulp md gulp /\ md < dedisperse_gulp md gulp) by (unfold dedisperse_gulp; lia).
+  destruct (run_plan_packed_as_bytes fs nch nbits big N (dedisperse_gulp md gulp) start nsamps md junk Hnb Hdiv Hc Hf Ht Hbytes Hs0 Hn Hr ltac:(lia) ltac:(lia)) as [E [Hf' Ht']].
+  unfold dedisperse_pipe_packed, dedisperse_skipback. rewrite E.
+  destruct (dedisperse_spec (unpacked_set fs nbits big) nch N gulp start nsamps md delays Hf' Hc Ht' Hs0 Hn Hr Hg Hmd Hd) as [out [Eo So]].
+  unfold dedisperse_pipe, dedisperse_skipback in Eo. exists out. split; [exact Eo|].
+  intros t Htr. rewrite So by assumption. unfold dedisp. apply sum_n_ext. intros c Hcx. pose proof (Hd c ltac:(lia)).
+  destruct (SPP.Proofs.C03_bits.bf_pos nbits Hnb) as [Hb Hb8].
+  assert (Hnch : nch * nbits = 8 * samp_bytes nch nbits) by (unfold samp_bytes; apply Z.div_exact; lia).
+  assert (Hnb0 : 0 < nbits) by (cbn [In] in Hnb; lia).
+  assert (Hn2 : nch = samp_bytes nch nbits * bf nbits) by nia.
+  apply X_unpacked; [assumption|]. rewrite len_flat, Ht. set (sbs := samp_bytes nch nbits) in *. clearbody sbs. subst nch. nia. Qed.
